@@ -31,6 +31,15 @@ def do_replay(prop, path):
     elif rp.get("kind") == "libraryref":
         from vf.e1.edif_jobs import replay_libraryref
         viol, txt = replay_libraryref(rp)
+    elif rp.get("kind") == "design":
+        from vf.e1.edif_jobs import replay_design
+        viol, txt = replay_design(rp)
+    elif rp.get("kind") == "concat_read":
+        from vf.e1.verilog_jobs import replay_concat_read
+        viol, txt = replay_concat_read(rp)
+    elif rp.get("kind") == "port_ref":
+        from vf.e1.edif_jobs import replay_port_ref
+        viol, txt = replay_port_ref(rp)
     elif rp.get("kind") == "cable_wire_name":
         from vf.e1.edif_jobs import replay_cable_wire_name
         viol, txt = replay_cable_wire_name(rp)
